@@ -11,6 +11,11 @@ class Inconclusive(Exception):
     """watchdog expired / harness lost control: never a violation"""
 
 
+class BusyLoop(Exception):
+    """the daemon produced megabytes of log output or thousands of delivery commands without ever blocking: it is spinning
+    (deterministic evidence - volume, not time)"""
+
+
 def spawn(argv, env, fdmap, cwd="/"):
     """fork+exec with an exact descriptor layout {target_fd: source_fd}; own session; everything else closed."""
     pid = os.fork()
@@ -147,6 +152,7 @@ class World:
         for fd in [self.fd_log] + self.fd_cmd:
             os.set_blocking(fd, False)
         self.cmdbuf = [b"", b""]
+        self.flood_log = self.flood_cmds = 0
         self.outstanding = []
         self.spawner_alive = [True, True]
         for c in (0, 1):
@@ -178,17 +184,18 @@ class World:
     def _drain(self):
         """read pending log bytes and delivery commands (non-blocking)"""
         try:
-            while True:
+            for _ in range(8):          # bounded: a spinning daemon can produce output faster than we read it
                 d = os.read(self.fd_log, 65536)
                 if not d:
                     break
-                self.log += d
+                self.log = (self.log + d)[-262144:]
+                self.flood_log += len(d)
         except (BlockingIOError, OSError):
             pass
         new = []
         for c in (0, 1):
             try:
-                while True:
+                for _ in range(8):
                     d = os.read(self.fd_cmd[c], 65536)
                     if not d:
                         break
@@ -209,6 +216,10 @@ class World:
                 self.outstanding.append(cmd)
                 new.append(cmd)
                 self.history.append(("cmd", cmd.as_json()))
+                self.flood_cmds += 1
+        if self.flood_log > 6 * 1024 * 1024 or self.flood_cmds > 4000:
+            raise BusyLoop("%d bytes of log output and %d delivery commands since the last quiescent point; log tail: %r" % (
+                self.flood_log, self.flood_cmds, self.log[-300:]))
         return new
 
     def wait_event(self):
@@ -240,6 +251,7 @@ class World:
                         "req_timeout": int(f[6]) if len(f) > 6 else int(f[1])}
                 self.qcount += 1
                 self._drain()
+                self.flood_log = self.flood_cmds = 0
                 self._observe_queue()
                 self.history.append(("Q", info["timeout"], info["vnow"], info["spins"], info["rfds"]))
                 return ("Q", info)
